@@ -62,8 +62,8 @@ Section M.
 
   Lemma RL_step : forall s x, RL s -> RL (pstep_run s x).
   Proof.
-    intros s x [P Q]. destruct x as [b0 | bid pos | | ]; simpl.
-    - unfold Processor.enqueue. destruct (stopped s); [split; auto|]. destruct (_ || _); [split; auto|].
+    intros s x [P Q]. destruct x as [b0 | bid pos | | | | ]; simpl.
+    - unfold Processor.enqueue. destruct (quitf s || stopped s); [split; auto|]. destruct (_ || _); [split; auto|].
       split; auto. simpl. intros bs Hb. apply in_app_or in Hb. destruct Hb as [Hb|[Hb|[]]]; auto.
       subst. simpl. apply map_length.
     - unfold arrive. destruct (stopped s); [split; auto|]. split; auto. simpl. intros bs Hb.
@@ -90,15 +90,19 @@ Section M.
           split; [simpl; congruence|]. simpl. intros b [Hb|Hb]; [subst; simpl; exact Qh | apply Qr; exact Hb].
         * split; auto. simpl. intros b [Hb|Hb]; [subst; simpl; exact Qh | apply Qr; exact Hb].
     - unfold Processor.stop. destruct (stopped s); [split; auto|].
-      set (s0 := match queue s with bs :: _ => pemit s (PAborted (b_id (bs_batch bs))) | [] => s end).
+      set (s0 := match queue s with bs :: _ => if quitf s then s else pemit s (PAborted (b_id (bs_batch bs))) | [] => s end).
       assert (E0 : poof s0 = poof s /\ queue s0 = queue s).
-      { unfold s0. destruct (queue s) eqn:Eq; [auto|]. split; [reflexivity | simpl; exact Eq]. }
+      { unfold s0. destruct (queue s) eqn:Eq; [auto|]. destruct (quitf s); [auto|]. split; [reflexivity | simpl; exact Eq]. }
       destruct E0 as [P0 Q0].
       match goal with |- context [fold_left apply_out ?l ?sx] =>
         pose proof (poof_fold_apply l sx) as F; pose proof (frame_fold_apply l sx) as [_ [Fq _]] end.
       split.
       + unfold pemit; cbn [poof]. rewrite F. unfold set_buf; cbn [poof]. rewrite P0. exact P.
       + unfold pemit; cbn [queue]. rewrite Fq. unfold set_buf; cbn [queue]. rewrite Q0. exact Q.
+    - unfold quit. destruct (stopped s); split; auto.
+    - unfold abort. destruct (stopped s || negb (quitf s)); [split; auto|].
+      destruct (queue s) as [|bs rest] eqn:Eq; [split; auto; rewrite Eq; auto|].
+      split; [exact P | simpl; intros b Hb; apply Q; right; exact Hb].
   Qed.
 
   Theorem flush_fuel_suffices : forall h0 steps, poof (prun h0 steps) = false.
